@@ -20,12 +20,19 @@ class TaskError(Exception):
     pass
 
 
+class EmptyGroupError(TaskError):
+    """A legal exception whose truth value is False (an aggregate error without sub-errors)."""
+
+    def __len__(self):
+        return 0
+
+
 class CallbackError(Exception):
     pass
 
 
 def gen_program(rng):
-    task = [rng.choice(["ret", "raise"]), rng.choice([0, 0, 1.0, 2.0])]
+    task = [rng.choice(["ret", "ret", "raise", "raise", "raise-falsy"]), rng.choice([0, 0, 1.0, 2.0])]
     nthreads = rng.randint(2, 4)
     threads = []
     execer = rng.randrange(nthreads)
@@ -65,7 +72,7 @@ class FutRun(object):
         self.s = sched
         self.tp = env.pool_seams()
         self.obj = ["task-result"]
-        self.exc = TaskError("task-exception")
+        self.exc = EmptyGroupError("task-exception") if program["task"][0] == "raise-falsy" else TaskError("task-exception")
 
     def task(self, *args, **kwargs):
         s = self.s
@@ -74,7 +81,7 @@ class FutRun(object):
             d = self.p["task"][1]
             if d:
                 s.sleep(d)
-            if self.p["task"][0] == "raise":
+            if self.p["task"][0] != "ret":
                 raise self.exc
             return self.obj
         finally:
